@@ -84,6 +84,25 @@ def inputs(ctx):
         for drop in (False, True):
             ins.append({"id": "f%d" % n, "spec": [2, "flash", short], "drop": drop, "doubled": False, "offset": 0, "pad": 0})
             n += 1
+    # timecode labels on field boundaries: first frames of a minute (the labels drop-frame counting
+    # skips, ;00 and ;01, and the first it keeps, ;02), tenth minutes, hours, last frame of a second /
+    # minute / hour - as the label of the line carrying the End-Of-Caption and of the erase line
+    labels = [[0, 7, 0, 0], [0, 7, 0, 1], [0, 7, 0, 2], [0, 10, 0, 0], [0, 10, 0, 1], [1, 0, 0, 0], [1, 0, 0, 1],
+              [0, 0, 59, 29], [0, 59, 59, 29], [0, 1, 0, 0], [0, 9, 0, 1], [0, 0, 1, 0], [0, 0, 4, 0], [23, 59, 50, 0],
+              [0, 19, 0, 0], [0, 20, 0, 1], [2, 13, 0, 0], [0, 0, 30, 29]]
+    for lab in labels:
+        fr = ((lab[0] * 60 + lab[1]) * 60 + lab[2]) * 30 + lab[3]
+        for drop in (False, True):
+            for doubled in (False, True):
+                load = [{"k": "ENM"}, {"k": "RCL"}] + _load(rng, 14, 1) + [{"k": "EOC"}]
+                for role in ("eoc", "edm"):
+                    a, b = (fr, fr + 95) if role == "eoc" else (max(fr - 95, 0), fr)
+                    if a == b:
+                        continue
+                    ins.append({"id": "b%d" % n, "lines": [{"tc": _tc(a), "drop": drop, "syms": load},
+                                                            {"tc": _tc(b), "drop": drop, "syms": [{"k": "EDM"}]}],
+                                "doubled": doubled, "offset": 0})
+                    n += 1
     for k in range(400 if ctx.quick else 20000):
         lines = sccgen.popon_program(rng, drop=None)
         # move the program to a random hour
